@@ -21,7 +21,8 @@
     empty for these escapes; everything else about such strings (extent, position, verdict) is claimed. *)
 From Coq Require Import List NArith ZArith Bool.
 From ApiFu Require Import Base.Sexp Lex.Utf8 Lex.LexModel Lex.LexSpec Lex.LexRel
-  Lex.LexProgress Lex.LexMode Lex.BlockProofs Lex.LexRefine Lex.LexValid Lex.LexWitness.
+  Lex.LexProgress Lex.LexMode Lex.BlockProofs Lex.LexRefine Lex.LexValid Lex.LexWitness
+  Lex.LexErrors Lex.LexApi Lex.LexApiSpec Lex.LexApiProofs Lex.LexPrefixSpec Lex.LexPrefix.
 Import ListNotations.
 Open Scope Z_scope.
 
@@ -157,6 +158,96 @@ Theorem C07_read_next_rune_refuted_before_fix :
     read_next_rune_before_fix (utf8_encode c ++ rest) <> (Z.of_N c, length (utf8_encode c)).
 Proof. exact read_next_rune_refuted_before_fix. Qed.
 
+(** ** ALL reported errors (count, order, line and column), for every byte string
+
+    Vocabulary (Lex/LexErrors.v): [boundary bs k st]: [st] is the error-free scanner state reached
+    from the start of [bs] by consuming exactly [k] whole runes as utf8.DecodeRune delimits them
+    ([k] may be the number of runes: the end of input); [err_at bs e k]: the error position
+    [e = (line, column)] is the position of boundary [k]. *)
+
+(** every error the scanner reports — in either mode, whether or not the text is valid UTF-8 —
+    carries the (line, column) of a rune boundary of the text or of its end, and successive errors
+    never go backwards *)
+Theorem C07_lex_error_positions_bytes : forall m bs ts es,
+  lex m bs = Done ts es ->
+  exists ks, Forall2 (err_at bs) es ks /\ Sorted.StronglySorted le ks.
+Proof. exact lex_error_positions_bytes. Qed.
+
+(** on valid UTF-8: the errors sit at code points [ns] of the text (or at its end), in
+    non-decreasing order, and each carries the specification's (line, column) of its code point *)
+Theorem C07_lex_error_positions : forall m bs cps ts es,
+  utf8_decode bs = Some cps -> lex m bs = Done ts es ->
+  exists ns, es = map (fun n => advance_pos (1, 1) n cps) ns /\
+             Forall (fun n => (n <= length cps)%nat) ns /\ Sorted.StronglySorted le ns.
+Proof. exact lex_error_positions. Qed.
+
+(** the position of the end of input (what Position() answers after the last token) is the
+    specification's position after the last code point *)
+Theorem C07_end_pos_spec : forall bs cps, utf8_decode bs = Some cps ->
+  end_pos bs = advance_pos (1, 1) (length cps) cps.
+Proof. exact end_pos_spec. Qed.
+
+(** ** Texts with a lexical error: agreement up to the failure, and no early error
+
+    [agreed cps stoks failing] (Lex/LexPrefixSpec.v): the grammar's tokens [stoks] cut before the
+    first token of a known class and, when the grammar ends in an error ([failing]) right after a
+    COMMENT, without that comment (a comment that runs into a character outside SourceCharacter
+    is reported from inside the comment, and the scanner's comment token runs on to the end of the
+    line); [agreed_count]: the number of code points these tokens cover.  So with [EndError _ idx _ _]
+    and no known class, [agreed_count] is [idx] itself unless a comment ends at [idx]. *)
+
+(** whatever the grammar says about a valid UTF-8 text (tokenises it, or stops at a place without
+    token): the scanner's tokens BEGIN with the agreed grammar tokens — kind, byte extent, line,
+    column, literal, decoded value — and every error it reports sits at a code point at or after
+    the end of those tokens, inside the text or at its end.  (With [e = EndOk] and no known class
+    this is C07_lex_refines_spec again; with [EndError] it says what happens before the error.) *)
+Theorem C07_lex_agrees_before_failure : forall bs cps stoks e ts es,
+  utf8_decode bs = Some cps -> spec_lex cps = (stoks, e) -> lex true bs = Done ts es ->
+  exists rest ns,
+    ts = map token_of_stoken (agreed cps stoks (is_end_error e)) ++ rest /\
+    es = map (fun n => advance_pos (1, 1) n cps) ns /\
+    Forall (fun n => (agreed_count (agreed cps stoks (is_end_error e)) <= n <= length cps)%nat) ns.
+Proof. exact lex_agrees_before_failure. Qed.
+
+(** ... and what the parser sees (mode 0) begins with the non-ignored agreed tokens *)
+Corollary C07_lex_agrees_before_failure_mode0 : forall bs cps stoks e ts es,
+  utf8_decode bs = Some cps -> spec_lex cps = (stoks, e) -> lex false bs = Done ts es ->
+  exists rest ns,
+    ts = significant_tokens (map token_of_stoken (agreed cps stoks (is_end_error e))) ++ rest /\
+    es = map (fun n => advance_pos (1, 1) n cps) ns /\
+    Forall (fun n => (agreed_count (agreed cps stoks (is_end_error e)) <= n <= length cps)%nat) ns.
+Proof. exact lex_agrees_before_failure_mode0. Qed.
+
+(** ** The public API under ARBITRARY call sequences (Lex/LexApi.v, Lex/LexApiSpec.v)
+
+    [run m src cs]: the answers of a fresh scanner (mode [m], source [src]) to the calls [cs] —
+    any sequence of Scan, Token, Position, Literal, StringValue, Errors.  [trace_ok ts endp E 0 cs rs]:
+    every answer in [rs] is the one prescribed for the number j of Scan() calls issued so far:
+    j = 0: INVALID, (0,0), empty literal/value; 1 <= j <= |ts|: kind, position, literal, value of the
+    j-th token of the canonical loop; j > |ts|: Scan() = false, INVALID, the end position, empty
+    literal/value; Errors() = [E j].  [errs_by_cursor_ok ts es E]: [E 0 = []], [E] only grows, and
+    [E j = es] once Scan() has returned false. *)
+
+(** call-order independence: whatever the caller does between two Scan() calls (observers in any
+    order, repeated, before the first Scan, after the last), every answer is a function of the
+    number of Scan() calls so far and agrees with the canonical loop [lex m src = Done ts es] *)
+Theorem C07_api_call_order : forall m src ts es, lex m src = Done ts es ->
+  exists E, errs_by_cursor_ok ts es E /\
+            forall cs, trace_ok ts (end_pos src) E 0 cs (run m src cs).
+Proof. exact api_call_order. Qed.
+
+(** no call sequence makes the scanner panic (Literal's slice expression stays inside the source)
+    or loop *)
+Theorem C07_api_never_panics : forall m src cs,
+  ~ In RPanic (run m src cs) /\ ~ In RFuel (run m src cs).
+Proof. exact api_never_panics. Qed.
+
+(** fixed: before the repair, Literal() after Scan() had returned false sliced past the end of the
+    source: on "a", Scan Scan Literal panics *)
+Theorem C07_api_call_order_refuted_before_fix :
+  exists m src cs, In RPanic (run_before_fix m src cs).
+Proof. exact api_call_order_refuted_before_fix. Qed.
+
 Print Assumptions C07_lex_progress.
 Print Assumptions C07_lex_partition.
 Print Assumptions C07_lex_mode.
@@ -176,3 +267,11 @@ Print Assumptions C07_refines_refuted_dangling_exponent.
 Print Assumptions C07_refines_refuted_inner_bom.
 Print Assumptions C07_block_value_eq_refuted_before_fix.
 Print Assumptions C07_read_next_rune_refuted_before_fix.
+Print Assumptions C07_lex_error_positions_bytes.
+Print Assumptions C07_lex_error_positions.
+Print Assumptions C07_end_pos_spec.
+Print Assumptions C07_api_call_order.
+Print Assumptions C07_api_never_panics.
+Print Assumptions C07_api_call_order_refuted_before_fix.
+Print Assumptions C07_lex_agrees_before_failure.
+Print Assumptions C07_lex_agrees_before_failure_mode0.
